@@ -780,6 +780,22 @@ class AbstractExecutionTracer(ABC):  # noqa: PLR0904
         """
 
     @abstractmethod
+    def executed_membership_outcome(self, outcome, predicate: int) -> None:
+        """The subject evaluated a membership test whose outcome could not be observed before.
+
+        A membership test on a one-shot iterator consumes elements of the iterator, so the
+        probe in front of the comparison must not evaluate it.  This probe runs after the
+        comparison of the subject and reports its result.
+
+        Args:
+            outcome: the result of the membership test of the subject
+            predicate: the predicate identifier
+
+        Raises:
+            RuntimeError: raised when called from another thread
+        """
+
+    @abstractmethod
     def executed_in_presence_predicate(self, value1, value2, predicate: int) -> None:
         """An auxiliary membership predicate was executed.
 
@@ -1344,6 +1360,8 @@ class ExecutionTracer(AbstractExecutionTracer):  # noqa: PLR0904
             super().__init__()
             self.enabled = True
             self.trace = ExecutionTrace()
+            # predicate of a membership test whose outcome is reported after the comparison
+            self.pending_membership: int | None = None
 
     def __init__(self) -> None:  # noqa: D107
         # Contains the trace information that is generated when a module is imported
@@ -1499,6 +1517,7 @@ class ExecutionTracer(AbstractExecutionTracer):  # noqa: PLR0904
     def executed_compare_predicate(  # noqa: D102
         self, value1, value2, predicate: int, cmp_op: PynguinCompare
     ) -> None:
+        self._thread_local_state.pending_membership = None
         with self.temporarily_disable():
             value1 = tt.unwrap(value1)
             value2 = tt.unwrap(value2)
@@ -1515,9 +1534,21 @@ class ExecutionTracer(AbstractExecutionTracer):  # noqa: PLR0904
                 # with tracing enabled; no branch is taken.
                 return
             if outcome is None:
+                # reported by executed_membership_outcome after the comparison of the subject
+                self._thread_local_state.pending_membership = predicate
                 return
             distance_true, distance_false = _branch_distances(outcome, to_true, to_false)
             self._update_metrics(distance_false, distance_true, predicate)
+
+    @_early_return
+    def executed_membership_outcome(self, outcome, predicate: int) -> None:  # noqa: D102
+        if self._thread_local_state.pending_membership != predicate:
+            return
+        self._thread_local_state.pending_membership = None
+        if outcome:
+            self._update_metrics(distance_false=1.0, distance_true=0.0, predicate=predicate)
+        else:
+            self._update_metrics(distance_false=0.0, distance_true=1.0, predicate=predicate)
 
     @_early_return
     def executed_bool_predicate(self, value, predicate: int) -> None:  # noqa: D102
@@ -2014,6 +2045,9 @@ class InstrumentationExecutionTracer(AbstractExecutionTracer):  # noqa: PLR0904
 
     def executed_bool_predicate(self, value, predicate: int) -> None:  # noqa: D102
         self._tracer.executed_bool_predicate(value, predicate)
+
+    def executed_membership_outcome(self, outcome, predicate: int) -> None:  # noqa: D102
+        self._tracer.executed_membership_outcome(outcome, predicate)
 
     def executed_in_presence_predicate(  # noqa: D102
         self, value1, value2, predicate: int
